@@ -9,6 +9,7 @@ the real argparse parser from registerArgparse, updateFromDict.  Documented
 defaults are parsed from Doc/command.tex (an oracle independent of Config.py);
 options the manual does not list fall back to a frozen table, stated as a
 regression oracle in the evidence."""
+import copy
 import os, re, sys, json, tempfile, shutil, traceback
 from .. import common
 
@@ -51,6 +52,8 @@ def new_config():
 
 
 _catalogue = None
+_first_defaults = None
+_previous = None
 
 
 def catalogue():
@@ -229,12 +232,27 @@ def run(case, st):
     if case['kind'] == 'defaults':
         return run_defaults(case, st)
     from argparse import ArgumentParser
+    global _first_defaults, _previous
+    # the configuration built for the previous case must not move while another one is built and filled
+    prev = _previous
     cfg = new_config()
     # expected: fold over the layers
     final = {sec: {} for sec in cfg}
     for sec, key, kind, flags in catalogue():
         v = cfg[sec].data[key].value
         final[sec][key] = list(v) if isinstance(v, list) else (dict(v) if isinstance(v, dict) else v)
+    # a configuration object built from nothing starts at the defaults, whatever other configuration objects of the
+    # same process were given before (the first one of the process is the yardstick; it is compared with the manual
+    # by the 'defaults' case)
+    if _first_defaults is None:
+        _first_defaults = copy.deepcopy(final)
+    else:
+        st.counters['fresh_configurations_compared'] += 1
+        for sec, key, kind, flags in catalogue():
+            if final[sec][key] != _first_defaults[sec][key]:
+                st.violation('fresh-configuration-not-at-defaults/' + kind.split(':')[0], case, '%s.%s of a newly built configuration is %r, the first configuration of the process started with %r' % (sec, key, final[sec][key], _first_defaults[sec][key]))
+                final = copy.deepcopy(_first_defaults)
+                break
     touched = {}
 
     def apply(sec, key, kind, val, src):
@@ -329,6 +347,25 @@ def run(case, st):
             st.violation(k, case, '%s.%s: %s' % (sec, key, msg))
     finally:
         shutil.rmtree(tmp, ignore_errors=True)
+    if prev is not None:
+        pcfg, pvals = prev
+        st.counters['earlier_configurations_reread'] += 1
+        for (sec, key), was in pvals.items():
+            try:
+                now = pcfg[sec][key]
+            except Exception as e:
+                now = 'raises %r' % e
+            if now != was:
+                st.violation('earlier-configuration-moved', case, '%s.%s of the configuration of the previous case read %r when that case ended and reads %r after this case filled its own configuration' % (sec, key, was, now))
+                break
+    vals = {}
+    for sec, key, kind, flags in catalogue():
+        try:
+            v = cfg[sec][key]
+            vals[(sec, key)] = copy.deepcopy(v)
+        except Exception:
+            pass
+    _previous = (cfg, vals)
     multi = any(len(v) >= 2 for v in touched.values())
     return {'nontrivial': multi or len(touched) >= 4, 'sample': {'files': [[(i[0], i[1], i[3]) for i in f[:4]] for f in case['files']], 'argv': build_argv(case['argv'])[:8]}}
 
